@@ -32,7 +32,11 @@ package openapi3filter
 //@   requires input != nil && input.Route != nil && input.Route.Spec != nil
 //@   assuming input.Options != nil && input.Options.AuthenticationFunc != nil
 //@   modifies http.Request.*
+//@   loop 0 invariant seenset() == keys(names)
+//@   loop 0 invariant fresh(names)
+//@   loop 1 invariant forall k string :: keysPrefix(names, #i)[k] ==> old(declared(input, k)) && authOK(k)
 //@   ensures (result == nil) <==> old(reqOK(input, securityRequirement))
+//@   tag C07
 
 //@ func ValidateSecurityRequirements
 //@   requires input != nil && input.Route != nil && input.Route.Spec != nil
